@@ -199,6 +199,8 @@ func propC05(w *World, r *Report) {
 	}
 	sort.Slice(fns, func(i, j int) bool { return fnName(fns[i]) < fnName(fns[j]) })
 	r.Conds["monotone-stores:cff.readIndex"] = condMonotoneStores(w, br, "cff.readIndex", false)
+	r.Conds["readindex-size-check"] = condReadIndexSizeCheck(w)
+	r.Conds["gpos4-markcov-reconciled"] = condGpos4Reconciled(w)
 	r.Conds["charstring-budget"] = condGlobalBudget(w, "(*cff.decodeInfo).decodeCharString")
 	RunBounds(w, r, "bounds", br, fns)
 	runLoopTerm(w, r, br, fns, true)
